@@ -59,6 +59,7 @@ type env20 struct {
 	acts    []act
 	losses  []lossFn
 	sgd     *optimizers.SGD
+	inits   []layers.Initializer // shared initializer objects (one per kind)
 }
 
 func newEnv20(sc *sim.Scenario) (*env20, string) {
@@ -97,6 +98,28 @@ func newEnv20(sc *sim.Scenario) (*env20, string) {
 	e.acts = []act{activations.NewRelu(), activations.NewLeakyRelu(nil), activations.NewSigmoid(), activations.NewTanh(), sm0, sm1}
 	e.losses = []lossFn{losses.NewMSE(), losses.NewBCE(), losses.NewCE()}
 	e.sgd = optimizers.NewSGD(nil)
+	if sc.Cfg["setupbp"] == 1 {
+		// the main goroutine finished a back-propagation before the tasks start:
+		// the shared parameters hold gradients (and are spent) while the tasks
+		// run forward computations on them
+		if e.fc != nil && len(e.ids) > 0 {
+			if y, err := e.fc.Forward(e.shared[e.ids[0]]); err == nil {
+				if err := tensor.BackPropagate(y); err != nil {
+					return nil, "malformed"
+				}
+			}
+		}
+		for _, id := range e.ids {
+			if e.tracked[id] {
+				if err := tensor.BackPropagate(e.shared[id].Scale(2)); err != nil {
+					return nil, "malformed"
+				}
+			}
+		}
+	}
+	for k := range c10InitKinds {
+		e.inits = append(e.inits, c10Initializer(k))
+	}
 	return e, ""
 }
 
@@ -123,10 +146,13 @@ func (e *env20) fingerprint() uint64 {
 }
 
 type trun struct {
-	pool  *sim.Pool
-	obs   []uint64
-	notes []string
-	marks []uint64 // simulated time (relative to the task's start) at which each BackPropagate call began
+	pool   *sim.Pool
+	obs    []uint64
+	notes  []string
+	marks  []uint64 // simulated time (relative to the task's start) at which each BackPropagate call began
+	rmarks []uint64 // simulated time at which each random-constructor / Init call began
+	rngFP  []uint64 // value fingerprints of the tensors returned by random constructors (>= 4 elements)
+	bad    string   // a random constructor returned values outside its configured support
 }
 
 // runTask executes one task's program. inCall, when non-nil, is toggled
@@ -205,7 +231,8 @@ func runTask(e *env20, steps []sim.Step, inCall *bool) *trun {
 			}
 			isTensor = true
 		case "init":
-			t, err = c10Initializer(st.N).Init(cpI(st.I))
+			tr.rmarks = append(tr.rmarks, sim.Now()-t0)
+			t, err = e.inits[st.N%len(e.inits)].Init(cpI(st.I))
 			isTensor = true
 		case "backprop":
 			if get(0) == nil {
@@ -230,6 +257,9 @@ func runTask(e *env20, steps []sim.Step, inCall *bool) *trun {
 				}
 			}
 		default:
+			if st.Op == "randu" || st.Op == "randn" {
+				tr.rmarks = append(tr.rmarks, sim.Now()-t0)
+			}
 			res := tr.pool.Apply(st)
 			t, err = res.T, res.Err
 			isTensor = res.T != nil
@@ -246,6 +276,41 @@ func runTask(e *env20, steps []sim.Step, inCall *bool) *trun {
 			*inCall = false
 		}
 		sim.Pause()
+		if err == nil && t != nil && (st.Op == "randu" || st.Op == "randn" || st.Op == "init") {
+			vals := sim.Values(t)
+			if len(vals) >= 4 && !(st.Op == "init" && c10InitKinds[st.N%len(c10InitKinds)] == "full") {
+				tr.rngFP = append(tr.rngFP, sim.ValFP(t))
+			}
+			lo, hi := math.Inf(-1), math.Inf(1)
+			switch {
+			case st.Op == "randu" && len(st.F) >= 2:
+				lo, hi = st.F[0], st.F[1]
+			case st.Op == "randn" && len(st.F) >= 2:
+				lo, hi = st.F[0]-12*st.F[1], st.F[0]+12*st.F[1]
+			case st.Op == "init":
+				switch c10InitKinds[st.N%len(c10InitKinds)] {
+				case "full":
+					lo, hi = 0.75, math.Nextafter(0.75, 1)
+				case "uniform":
+					lo, hi = -0.05, 0.05
+				case "normal":
+					lo, hi = -0.6, 0.6
+				case "heuniform":
+					lo, hi = -math.Sqrt(2), math.Sqrt(2)
+				case "henormal":
+					lo, hi = -12*math.Sqrt(2./3), 12*math.Sqrt(2./3)
+				case "xavieruniform":
+					lo, hi = -math.Sqrt(6./5), math.Sqrt(6./5)
+				case "xaviernormal":
+					lo, hi = -12*math.Sqrt(2./5), 12*math.Sqrt(2./5)
+				}
+			}
+			for i, v := range vals {
+				if !(v >= lo && v < hi) && tr.bad == "" {
+					tr.bad = fmt.Sprintf("%s %v (kind %d): element %d = %v outside its configured support [%v, %v)", st.Op, st.F, st.N, i, v, lo, hi)
+				}
+			}
+		}
 		switch {
 		case err != nil:
 			h = h.Str("error:" + err.Error())
@@ -350,6 +415,9 @@ func (c20) Generate(r *sim.Rand, tier string) *sim.Scenario {
 		sc.Cfg["enum1"] = 1
 	}
 	sc.Cfg["tasks"] = float64(ntasks)
+	if r.Bool(0.25) {
+		sc.Cfg["setupbp"] = 1
+	}
 	D, O := r.Range(1, 3), r.Range(1, 3)
 	sc.Cfg["fcin"], sc.Cfg["fcout"] = float64(D), float64(O)
 	sc.Data["fcW"], sc.Data["fcB"] = randData(r, O, false), randData(r, O, false)
@@ -439,13 +507,15 @@ func (c20) Generate(r *sim.Rand, tier string) *sim.Scenario {
 	sim.SeedLibraryRNG(uint64(sc.Cfg["rngseed"]))
 	total := uint64(0)
 	allBackprop := r.Bool(0.3) // every task builds and back-propagates private graphs
-	var bpMarks [][]uint64
+	var bpMarks, rngMarks [][]uint64
+	favInit := r.Intn(len(c10InitKinds)) // the initializer most tasks of this scenario use
 	// the schedule family is chosen first so that the programs can suit it
 	schedMode := []int{0, 1, 2, 3, 4, 4, 4}[r.Intn(7)]
-	stormBias := []int{sim.ClassGen, sim.ClassRNG, sim.ClassGradRule, sim.ClassBackprop, sim.ClassBackprop, sim.ClassBackprop}[r.Intn(6)]
+	stormBias := []int{sim.ClassGen, sim.ClassRNG, sim.ClassRNG, sim.ClassGradRule, sim.ClassBackprop, sim.ClassBackprop, sim.ClassBackprop}[r.Intn(7)]
 	if schedMode == 4 && (stormBias == sim.ClassBackprop || stormBias == sim.ClassGradRule) {
 		allBackprop = true
 	}
+	allRNG := schedMode == 4 && stormBias == sim.ClassRNG // every task calls random constructors / initializers
 	for tk := 0; tk < ntasks; tk++ {
 		e, bad := newEnv20(sc)
 		if bad != "" {
@@ -472,6 +542,9 @@ func (c20) Generate(r *sim.Rand, tier string) *sim.Scenario {
 		class := r.Intn(3) // 0 forward-only, 1 backprop class, 2 rng heavy
 		if allBackprop {
 			class = 1
+		}
+		if allRNG {
+			class = 2
 		}
 		o := genOpts{MaxElems: 36, MaxRank: 3, MaxDim: 3, Comparison: true, PSynth: 0.3, PTracked: 0.7, Client: tk}
 		usable := func() []avail {
@@ -609,16 +682,20 @@ func (c20) Generate(r *sim.Rand, tier string) *sim.Scenario {
 				st := sim.Step{C: tk, Out: ids.New(), I: cpI(base), Tag: "rng", B: r.Bool(0.5)}
 				switch r.Intn(3) {
 				case 0:
-					st.Op, st.F = "randu", []float64{-1, 1}
+					lo := []float64{-1, 0, 40, -1e3, 5}[r.Intn(5)]
+					st.Op, st.F = "randu", []float64{lo, lo + []float64{2, 1, 1e-3, 10}[r.Intn(4)]}
 				case 1:
-					st.Op, st.F = "randn", []float64{0, 1}
+					st.Op, st.F = "randn", []float64{[]float64{0, 0, 1e6, -50, 3}[r.Intn(5)], []float64{1, 0.01, 5, 1e-3}[r.Intn(4)]}
 				default:
 					st.Op, st.N = "init", r.Intn(len(c10InitKinds))
+					if r.Bool(0.6) {
+						st.N = favInit
+					}
 				}
 				var t tensor.Tensor
 				var err error
 				if st.Op == "init" {
-					t, err = c10Initializer(st.N).Init(cpI(st.I))
+					t, err = e.inits[st.N%len(e.inits)].Init(cpI(st.I))
 				} else {
 					res := sim.ApplyOn(st, nil)
 					t, err = res.T, res.Err
@@ -766,6 +843,7 @@ func (c20) Generate(r *sim.Rand, tier string) *sim.Scenario {
 		sc.Data["solo"] = append(sc.Data["solo"], float64(used))
 		total += used
 		bpMarks = append(bpMarks, tr2.marks)
+		rngMarks = append(rngMarks, tr2.rmarks)
 	}
 	/* preemption plan */
 	if big && schedMode == 0 {
@@ -780,18 +858,23 @@ func (c20) Generate(r *sim.Rand, tier string) *sim.Scenario {
 	case 4: // storm: from a random instant on, EVERY yield of one site class switches task (n times)
 		k0 := r.Intn(T)
 		bias := stormBias
-		if bias == sim.ClassBackprop || bias == sim.ClassGradRule {
-			// start the storm inside a back-propagation: the first task runs
-			// undisturbed until then, so its local time is the global time
+		if bias == sim.ClassBackprop || bias == sim.ClassGradRule || bias == sim.ClassRNG {
+			// start the storm inside a back-propagation (or a random
+			// constructor): the first task runs undisturbed until then, so its
+			// local time is the global time
+			marks := bpMarks
+			if bias == sim.ClassRNG {
+				marks = rngMarks
+			}
 			var cands []int
-			for tk, m := range bpMarks {
+			for tk, m := range marks {
 				if len(m) > 0 {
 					cands = append(cands, tk)
 				}
 			}
 			if len(cands) > 0 {
 				a := cands[r.Intn(len(cands))]
-				m := bpMarks[a]
+				m := marks[a]
 				k0 = int(m[r.Intn(len(m))]) + r.Intn(30)
 				sc.Cfg["first"] = float64(a)
 			}
@@ -992,6 +1075,11 @@ func (prop c20) executeOne(sc *sim.Scenario) *sim.Outcome {
 			}
 		}
 	}
+	if s.Stuck {
+		out.Probes["stage-A-stuck-watchdog"]++
+		out.Discard = "stage-A-stuck"
+		return out
+	}
 	if s.Foreign || sim.ForeignSeen() {
 		out.Probes["stage-A-not-run-foreign-goroutine"]++
 		out.Discard = "library-goroutines"
@@ -1036,6 +1124,10 @@ func (prop c20) executeOne(sc *sim.Scenario) *sim.Outcome {
 				return fin()
 			}
 		}
+	}
+	if v := c20rngOracle(runs); v != "" {
+		out.Fail("random-constructor", "%s", v)
+		return fin()
 	}
 	if s.InCallAtSwitch > 0 {
 		out.Probes["preemption-while-another-call-in-flight"]++
@@ -1115,6 +1207,10 @@ func (prop c20) executeRace(sc *sim.Scenario) *sim.Outcome {
 				}
 			}
 		}
+		if v := c20rngOracle(runs); v != "" {
+			out.Fail("random-constructor", "stage B: %s", v)
+			return finish(out, lh, sig, 0)
+		}
 	}
 	out.Nontrivial = true
 	for _, st := range sc.Steps {
@@ -1181,4 +1277,26 @@ func (c20) Shrinks(sc *sim.Scenario) []*sim.Scenario {
 		out = append(out, sim.DropStep(sc, i))
 	}
 	return out
+}
+
+// c20rngOracle: random constructors called concurrently must still honour
+// their configured support, and no two calls (of any task) may return the
+// same tensor.
+func c20rngOracle(runs []*trun) string {
+	seen := map[uint64]int{}
+	for i, r := range runs {
+		if r == nil {
+			continue
+		}
+		if r.bad != "" {
+			return fmt.Sprintf("task %d: %s", i, r.bad)
+		}
+		for _, fp := range r.rngFP {
+			if j, dup := seen[fp]; dup {
+				return fmt.Sprintf("tasks %d and %d received element-wise identical tensors from random constructors", j, i)
+			}
+			seen[fp] = i
+		}
+	}
+	return ""
 }
